@@ -27,7 +27,7 @@ LEVEL = "exploration"
 # to /repo.  False: shifts next to the max_shift radius are judged with the relaxed bounds the unrepaired code achieves
 # (zero-filled excluded lags bias the parabolic fit by up to 0.49 px at up=1).  True: they are judged with the usual
 # bounds (integer shifts exact at working precision, sub-pixel 1/up, up=1 0.5 px).  VERIF_C13_2_APPLIED=0/1 overrides.
-C13_2_APPLIED = False
+C13_2_APPLIED = True
 if os.environ.get("VERIF_C13_2_APPLIED") in ("0", "1"):
     C13_2_APPLIED = os.environ["VERIF_C13_2_APPLIED"] == "1"
 # ======================================================================================================================
